@@ -13,8 +13,8 @@ import (
 	"flag"
 	"fmt"
 	"os"
-	"runtime/debug"
 	"os/exec"
+	"runtime/debug"
 	"sort"
 	"strings"
 	"time"
